@@ -165,8 +165,12 @@ def run_worker(ctx, binary, ops, outdir, total, hang_s=60, name="impl.txt"):
             ctx.stats["worker_inputs_skipped_after_hangs"] = ctx.stats.get("worker_inputs_skipped_after_hangs", 0) + total - done
             break
         env = ctx.run_env(outdir, {"VERIF_IN": ops, "VERIF_START": done, "GOMEMLIMIT": "3GiB", "VERIF_IMPL_NAME": name})
+        # the worker's output goes to a FILE: through a pipe that nobody drains a tree that logs on every decode (slog.Warn)
+        # blocks after 64 KiB and looks like a non-terminating input (met in round 7 on a tree with F11a/b reverted)
+        logpath = os.path.join(outdir, "worker-" + name + ".log")
+        logf = open(logpath, "wb")
         p = subprocess.Popen([binary, "-test.run", "^TestVerifC10Worker$", "-test.timeout", "30m"], env=env,
-                             stdout=subprocess.PIPE, stderr=subprocess.STDOUT, preexec_fn=limit, cwd=outdir)
+                             stdout=logf, stderr=subprocess.STDOUT, preexec_fn=limit, cwd=outdir)
         last, last_t = done, time.time()
         hung = False
         while p.poll() is None:
@@ -180,7 +184,15 @@ def run_worker(ctx, binary, ops, outdir, total, hang_s=60, name="impl.txt"):
                 # worker process on a loaded machine)
                 p.kill()
                 hung = True
-        out = p.stdout.read().decode(errors="replace")
+        p.wait()
+        logf.close()
+        with open(logpath, "rb") as lf:
+            lf.seek(max(0, os.path.getsize(logpath) - 20000))
+            out = lf.read().decode(errors="replace")
+        # the first lines of a Go crash report are what names the death
+        m = re.search(r"(fatal error: [^\n]*|panic: [^\n]*(?:\n[^\n]*)?)", out)
+        if m:
+            out = m.group(1) + "\n" + out[-2000:]
         now = sum(1 for _ in open(impl))
         if now >= total:
             break
@@ -210,6 +222,14 @@ def run(ctx):
         return ctx.finish(rule="driver did not build")
     outdir = os.path.join(ctx.tmp, "run")
     os.makedirs(outdir)
+    if ctx.replay and open(ctx.replay_line_file()).read().split(" ")[0] in ("api-create", "api-show", "api-createfrom", "gguf-layers", "gguf-from", "gguf-show"):
+        # an API-level case: the recorded upload goes through the real handler again (one child process)
+        rc, out, apidir = ctx.go_test("./server/", API_OVERLAY, "^TestVerifC10APIReplay$",
+                                      env={"VERIF_REPLAY": ctx.replay_line_file()}, timeout=600)
+        if rc != 0:
+            ctx.violation("driver-failed", "api-replay", out[-1500:], no_input=True)
+        ctx.classify(ctx.l2(apidir))
+        return ctx.finish(level="proof", rule="replay of one API-level case", explanation="the recorded upload through the real handler")
     if ctx.replay:
         ops = ctx.replay_line_file()
     else:
